@@ -34,15 +34,18 @@ def peer_script(g, kind, i):
         return b"GET /r%d HTTP/1.0\r\nHost: x\r\nConnection: keep-alive\r\n\r\n" % i
     if kind == "http11-keepalive":
         return b"GET /r%d HTTP/1.1\r\nHost: x\r\nConnection: Keep-Alive\r\n\r\n" % i
+    if kind == "persist-then-close":     # a kept-alive connection later asked to close: two requests on one connection
+        return FIRST_KEEPALIVE + b"GET /r%d HTTP/1.1\r\nHost: x\r\nConnection: close\r\n\r\n" % i
     if kind == "post-slow-body":
         return b"POST /r%d HTTP/1.1\r\nHost: x\r\nConnection: close\r\nContent-Length: 12\r\n\r\nhello world!" % i
     raise ValueError(kind)
 
 
-KINDS = ["slowhead", "close-stream", "http10", "persist-idle", "post-slow-body", "http10-keepalive", "http11-keepalive"]
+FIRST_KEEPALIVE = b"GET /first HTTP/1.1\r\nHost: x\r\n\r\n"
+KINDS = ["persist-then-close", "slowhead", "close-stream", "http10", "persist-idle", "post-slow-body", "http10-keepalive", "http11-keepalive"]
 # persistence by the HTTP rules (not by the server's own flag): HTTP/1.1 unless 'Connection: close', HTTP/1.0 only with 'Connection: keep-alive'
 PERSISTENT = {"slowhead": True, "persist-idle": True, "http10-keepalive": True, "http11-keepalive": True,
-              "close-stream": False, "http10": False, "post-slow-body": False}
+              "close-stream": False, "http10": False, "post-slow-body": False, "persist-then-close": True}
 
 
 class C28(Check):
@@ -138,6 +141,14 @@ class C28(Check):
             closes = []
             orig_close = valet.closeConnection
 
+            def persistent_now(ca):
+                p = next((p for p in peers if p["raw"].laddr == ca), None)
+                if p is None or not PERSISTENT.get(p["kind"], False):
+                    return False
+                if p["kind"] == "persist-then-close":      # persistent until the first byte of its second request has been sent
+                    return p["off"] <= len(FIRST_KEEPALIVE)
+                return True
+
             def spy(ca):
                 ix = valet.servant.ixes.get(ca)
                 rq = valet.reqs.get(ca)
@@ -146,7 +157,7 @@ class C28(Check):
                     sock = getattr(ix.cs, "sock", ix.cs)
                     closes.append({"ca": ca, "now": store.stamp, "last": sock.last_activity, "cutoff": bool(ix.cutoff),
                                    # kept alive by HTTP persistence = a complete request that asks for it has been received
-                                   "persisted": bool(rq is not None and rq.ended and PERSISTENT.get(next((p["kind"] for p in peers if p["raw"].laddr == ca), None), False)),
+                                   "persisted": bool(rq is not None and rq.ended and persistent_now(ca)),
                                    "persisted_flag": bool(rq.persisted) if rq is not None else False,
                                    "errored": bool(rq.errored) if rq is not None else False,
                                    "resp_ended": bool(rp.ended) if rp is not None else None,
@@ -273,7 +284,7 @@ class C28(Check):
                                 out.probe("partial-send-beyond-timeout")
                         rq = valet.reqs.get(ca)
                         pk = next((p["kind"] for p in peers if p["raw"].laddr == ca), None)
-                        if rq is not None and rq.ended and PERSISTENT.get(pk) and store.stamp - sock.last_activity >= T:
+                        if rq is not None and rq.ended and persistent_now(ca) and store.stamp - sock.last_activity >= T:
                             out.probe("persisted-survived")
                             if pk == "http10-keepalive":
                                 out.probe("http10-keepalive-survived")
